@@ -13,14 +13,18 @@ Inductive lev := LM (code : Z) | LA (kind : N).
 Record run_obs := mkRun {
   r_bt : N;            (* which backtest (strategy parameterisation) *)
   r_workers : N;       (* 0 = run alone; else worker threads of the concurrent batch it ran in *)
+  r_pos_id : N;        (* this run is position [r_bt] of its batch: which backtest's id does the
+                          summary found at that position of the returned Vec carry
+                          (9999 = none of the batch's ids) *)
   r_outcome : N;       (* 0 Ok(summary), 1 Err, 2 panic, 3 timeout, 4 summary missing/duplicated *)
   r_log : list lev;    (* events processed by that backtest's engine *)
   r_fp : N;            (* fingerprint of fills, final positions, orders, balances, realised PnL,
                           win rate, profit factor, drawdown values (timestamps excluded) *)
   r_nfills : N;
   r_pnl : Z;           (* realised PnL over all instruments, 1e-12 units *)
-  r_sum_ok : bool      (* returned summary = the repo's generators applied to THIS engine's final
-                          instrument / asset state, id and risk-free rate echoed *)
+  r_sum_ok : bool      (* the summary found at this run's POSITION = the repo's generators applied
+                          to THIS backtest's own engine's final instrument / asset state, with
+                          this backtest's id and risk-free rate (distinct per backtest) *)
 }.
 
 Record case := mkCase {
@@ -85,7 +89,28 @@ Definition corr_run (fatal : option N) (ds : list Z) (r : run_obs) : bool :=
       end
   end.
 
-Definition corr_b (c : case) : bool := forallb (corr_run (c_fatal c) (c_ds c)) (c_runs c).
+(** batches: the model's [run_backtests] is a [map] over the argument sets, so the summary at
+    output position i is the i-th backtest's (Proofs.Backtest.batch_positional); with the
+    backtests numbered by argument position, the ids found at positions 0,1,2,… must be those
+    of backtests 0,1,2,… *)
+Definition model_batch_ids (nbt : N) : list N :=
+  (* model backtest i is fed [EMarket i; Shutdown]; its engine remembers the last market code and
+     its summary is that code: the model batch returns [0; 1; 2; …] *)
+  run_backtests (fun (s : N) (e : mev) => (match e with EMarket c => Z.to_N c | _ => s end, false))
+                (fun s : N => s) 0%N
+                (map (fun i => [EMarket (Z.of_nat i); EShutdown]) (seq 0 (N.to_nat nbt))).
+
+Definition corr_positions (c : case) : bool :=
+  forallb (fun w =>
+    list_eqb N.eqb
+      (map r_pos_id (filter (fun r => N.eqb (r_workers r) w) (c_runs c)))
+      (model_batch_ids (c_nbt c)))
+    (fold_right (fun r acc => if existsb (N.eqb (r_workers r)) acc then acc else r_workers r :: acc)
+                [] (c_runs c)).
+
+Definition corr_b (c : case) : bool :=
+  forallb (corr_run (c_fatal c) (c_ds c)) (c_runs c) &&
+  (match c_runs c with [] => true | _ => corr_positions c end).
 
 (* ---- oracle ---------------------------------------------------------------------------- *)
 
@@ -116,11 +141,12 @@ Definition batches_complete (c : case) : bool :=
 Definition run_hard (c : case) (r : run_obs) : bool :=
   match c_fatal c with
   | None =>
-      N.eqb (r_outcome r) 0 && list_eqb Z.eqb (market_codes (r_log r)) (c_ds c) && r_sum_ok r
+      N.eqb (r_outcome r) 0 && list_eqb Z.eqb (market_codes (r_log r)) (c_ds c) && r_sum_ok r &&
+      N.eqb (r_pos_id r) (r_bt r)
   | Some _ =>
       (N.eqb (r_outcome r) 0 || N.eqb (r_outcome r) 2) &&
       is_prefix (market_codes (r_log r)) (c_ds c) &&
-      (negb (N.eqb (r_outcome r) 0) || r_sum_ok r)
+      (negb (N.eqb (r_outcome r) 0) || (r_sum_ok r && N.eqb (r_pos_id r) (r_bt r)))
   end.
 
 Definition hard_b (c : case) : bool := batches_complete c && forallb (run_hard c) (c_runs c).
